@@ -8,9 +8,41 @@ import subprocess
 import time
 
 VERIF = os.path.dirname(os.path.dirname(os.path.abspath(__file__)))
-HARNESS = os.path.join(VERIF, "harness")
 WORK = os.path.join(VERIF, "work")
 GUARD_FLAGS = "--cfg rngs_verif"
+# The tree under test. Registered commands always use /repo; VERIF_REPO lets the
+# seeded-change tooling evaluate a scratch worktree without touching /repo: the
+# harness and native crates are then copied under work/alt/ with their path
+# dependencies pointing at that tree.
+REPO = os.environ.get("VERIF_REPO", "/repo")
+
+
+_BASE_WORK = WORK
+
+
+def _crate_dir(name):
+    src = os.path.join(VERIF, name)
+    if REPO == "/repo":
+        return src
+    tag = re.sub(r"[^A-Za-z0-9]", "_", REPO)
+    dst = os.path.join(_BASE_WORK, "alt", tag, name)
+    if os.path.exists(dst):
+        shutil.rmtree(dst)
+    os.makedirs(os.path.dirname(dst), exist_ok=True)
+    shutil.copytree(src, dst)
+    for f in ("Cargo.toml",):
+        p = os.path.join(dst, f)
+        t = open(p).read().replace('path = "/repo/', 'path = "%s/' % REPO)
+        if name == "native":
+            t = t.replace('path = "../harness"', 'path = "%s"' % os.path.join(os.path.dirname(dst), "harness"))
+        open(p, "w").write(t)
+    shutil.copy(os.path.join(REPO, "Cargo.lock"), os.path.join(dst, "Cargo.lock")) if name == "harness" and not os.path.exists(os.path.join(dst, "Cargo.lock")) else None
+    return dst
+
+
+HARNESS = _crate_dir("harness")
+if REPO != "/repo":
+    WORK = os.path.join(WORK, "alt", re.sub(r"[^A-Za-z0-9]", "_", REPO))
 
 
 class Group:
